@@ -143,6 +143,24 @@ Proof.
 Qed.
 Print Assumptions C16_reference_meaning.
 
+(* after the repair of _parse_downgrade_target (965a10e): `label@-N` on a database with no current revision is the
+   documented RevisionError (-> CommandError), for every history and every label/offset spelling *)
+Theorem C16_downgrade_label_relative : forall M l ds, plain l -> l <> [] -> word l -> digits ds ->
+  parse_downgrade_target M [] (l ++ c_at :: c_minus :: ds) true = Err ERevision.
+Proof. exact ResolveMain.downgrade_label_relative_empty. Qed.
+Print Assumptions C16_downgrade_label_relative.
+
+(* the absolute downgrade target label@rev is NOT checked against the label (finding C16-downgrade-label-unchecked):
+   aaaa carries lab0, bbbb is unrelated; get_revision refuses lab0@bbbb, the downgrade target parser resolves it to bbbb *)
+Theorem C16_downgrade_label_refuted :
+  exists M, load ResolveMain.G_unrel [(ResolveMain.s_aaaa, ResolveMain.s_aaaa)] = Ok M /\
+    parse_downgrade_target M [] (at_join ResolveMain.s_lab0 ResolveMain.s_bbbb) true = Ok (Some ResolveMain.s_lab0, EId ResolveMain.s_bbbb) /\
+    get_revision M (at_join ResolveMain.s_lab0 ResolveMain.s_bbbb) = Err EResolution /\
+    revision_for_ident0 M (Some ResolveMain.s_lab0) = Ok (Some (mkS ResolveMain.s_aaaa [] [] [ResolveMain.s_lab0])) /\
+    ~ lineage ResolveMain.G_unrel ResolveMain.s_aaaa ResolveMain.s_bbbb.
+Proof. exact ResolveMain.downgrade_label_unchecked. Qed.
+Print Assumptions C16_downgrade_label_refuted.
+
 Example C16_model_holds_nonvacuous :
   let i := mkIn G_ok [(sc, sc)] [] [sb; sc] in
   exists M, load_in i = Ok M /\ load_ok (i_revs i) = true /\ labels_okb (i_revs i) (c_labels (run i)) = true /\
